@@ -379,9 +379,11 @@ impl Check for TreeProp {
     fn default_runs(&self, tier: Tier) -> u64 {
         let (fx, per, _, _) = self.enum_layout(tier);
         fx * per
-            + match tier {
-                Tier::Quick => 6_000,
-                Tier::Thorough => 60_000,
+            + match (tier, self.id) {
+                (Tier::Quick, "C17") => 40_000,
+                (Tier::Quick, _) => 12_000,
+                (Tier::Thorough, "C17") => 400_000,
+                (Tier::Thorough, _) => 150_000,
             }
     }
     fn assumptions(&self) -> Vec<String> {
@@ -415,8 +417,8 @@ impl Check for TreeProp {
         let deep = rng.chance(0.5);
         let o = GenOpts {
             planner: Some(kind),
-            families: if obstacle_free { vec!["open"] } else if deep { vec!["balls", "balls", "thin_wall", "shell_door"] } else { vec!["open", "balls", "balls", "shell_door", "thin_wall"] },
-            max_iters: if deep { self.depth(tier) * 4 } else { self.depth(tier) },
+            families: if obstacle_free { vec!["open"] } else if deep { vec!["slivers", "slivers", "slivers", "balls", "thin_wall"] } else { vec!["open", "balls", "balls", "shell_door", "thin_wall"] },
+            max_iters: if deep { self.depth(tier) * 6 } else { self.depth(tier) },
             min_frac: 0.01,
             goal_sampler: Some(GoalSampler::Fixed),
             ..Default::default()
@@ -477,7 +479,7 @@ impl Check for TreeProp {
             scn.family = format!("history/{}", scn.family);
             return scn;
         }
-        let n = if deep { self.depth(tier) * 4 } else { self.depth(tier) };
+        let n = if deep { self.depth(tier) * 6 } else { self.depth(tier) };
         let n = match &scn.calls[1] {
             // keep the affordable budget the base generator chose
             CallSpec::Solve { stalls, .. } => stalls.iter().filter(|s| s.at == Phase::Sample).map(|s| s.nth).max().unwrap_or(n).min(n).max(3),
